@@ -101,7 +101,7 @@ func cmdVerify(args []string) int {
 	var qs []*query
 	for _, ps := range e.specs {
 		for _, fsx := range ps.Funcs {
-			if fsx.Trusted {
+			if fsx.Trusted && !fsx.ImplCheck {
 				continue
 			}
 			fn := e.findFunc(ps, fsx)
@@ -244,7 +244,7 @@ func cmdCheck(args []string) int {
 	var items []fnItem
 	for _, ps := range e.specs {
 		for _, fsx := range ps.Funcs {
-			if fsx.Trusted {
+			if fsx.Trusted && !fsx.ImplCheck {
 				continue
 			}
 			has := false
